@@ -467,5 +467,18 @@ func c09Entrypoints(c *Ctx, g *load.G) {
 			}
 		}
 	}
+	// the flag accumulates over repeated occurrences
+	sf := load.FuncDecl(g.Pkg(""), "ruleNamesFlag", "Set")
+	okSet := false
+	if sf != nil {
+		recv := recvName(sf)
+		ast.Inspect(sf.Body, func(n ast.Node) bool {
+			if as, ok := n.(*ast.AssignStmt); ok && nospace(as.Lhs[0]) == "*"+recv {
+				okSet = strings.HasPrefix(nospace(as.Rhs[0]), "append(*"+recv+",")
+			}
+			return true
+		})
+	}
+	r.Check(okSet, "C09-d", "G.main.ruleNamesFlag.Set:accumulates", "", "main.go", "every occurrence of -alternate-entrypoints adds to the list", "Set does not append to the names collected so far: with the flag given twice only the last list is protected, the other rules are removed by the optimizer")
 	r.Check(okMain, "C09-d", "G.main:passes-alternate-entrypoints", "", "main.go", "ast.Optimize(grammar, altEntrypointsFlag...)", "main does not pass the -alternate-entrypoints list to the optimizer")
 }
